@@ -65,3 +65,21 @@ def cached(name, params, builder):
     finally:
         fcntl.flock(lock, fcntl.LOCK_UN)
         lock.close()
+
+
+def ensure(name, params, builder):
+    """Build and cache a stage result WITHOUT keeping it in this process: a check that reads two large stages (C08, C17 in the thorough
+    tier) builds the second one before it loads the first, so that the recording workers and TLC do not run next to gigabytes of results
+    held by the parent (a thorough C17 ended in MemoryError that way on a loaded machine)."""
+    if os.environ.get("VERIF_NOCACHE") == "1":
+        return
+    key = hashlib.sha256(
+        json.dumps([name, params, repo_fingerprint(), _src_hash()], sort_keys=True).encode()
+    ).hexdigest()[:24]
+    if os.path.exists(os.path.join(CACHE, "%s-%s.json" % (name, key))):
+        return
+    res = cached(name, params, builder)
+    del res
+    import gc
+
+    gc.collect()
